@@ -236,6 +236,35 @@ C03VClause(st) ==
   ELSE IF \E j \in 2..Len(E) : E[j-1].next.has /\ E[j].call # E[j-1].next.call THEN "value_dispatch.arguments_intact.delegated"
   ELSE LET c == C01Clause(st) IN IF c = "" THEN "" ELSE "value_dispatch." \o c
 
+(***************************************************************************)
+(* Beyond the listed properties (reported as EXTRA, never a verdict):       *)
+(* f.display_resolution(args) announces what the call will do.              *)
+(*   X2:display_first   "X will be called first" names the method the        *)
+(*        documented rule selects; "No method will be called" iff the rule   *)
+(*        yields no method to run; ambiguity is announced iff the rule       *)
+(*        finds a tie at the top                                             *)
+(*   X2:display_order   the methods numbered #1, #2, .. are the chain that   *)
+(*        call_next would walk with the same arguments (unique winners from  *)
+(*        the top, as far as the numbering goes)                             *)
+(***************************************************************************)
+RECURSIVE DocChain(_, _)
+DocChain(S, call) ==
+  LET Wn == Winners(W, S, call) IN
+  IF Cardinality(Wn) # 1 THEN <<>>
+  ELSE LET m == CHOOSE m \in Wn : TRUE IN <<m.id>> \o DocChain(S \ Wn, call)
+
+X2Clause(st) ==
+  IF ~("display" \in DOMAIN st.obs) THEN ""
+  ELSE LET dp == st.obs.display
+           S == ApplicableSet(W, MOf(st), st.call)
+           d == Outcome(W, S, st.call)
+           ch == DocChain(S, st.call)
+       IN IF d.kind = "run" /\ ~(dp.kind = "run" /\ dp.first = d.m) THEN "X2:display_first.run"
+          ELSE IF d.kind = "nomethod" /\ ~(dp.kind = "none" /\ ~dp.amb) THEN "X2:display_first.nomethod"
+          ELSE IF d.kind = "ambiguous" /\ ~(dp.kind = "none" /\ dp.amb) THEN "X2:display_first.ambiguous"
+          ELSE IF Len(dp.seq) > Len(ch) \/ \E j \in DOMAIN dp.seq : dp.seq[j] # ch[j] THEN "X2:display_order"
+          ELSE ""
+
 StepClause(st) ==
   LET c1 == IF "C01" \in Props THEN C01Clause(st) ELSE ""
       c2 == IF "C02" \in Props THEN C02Clause(st) ELSE ""
@@ -366,10 +395,12 @@ Consume ==
          ks == \/ "C10" \in Props /\ KF_pull_rank(W, MOf(st), st.call) /\ (c = "" \/ ImplValueConsistent(st))
                \/ "C06" \in Props /\ ~co /\ DepOnly(MOf(st)) /\ KF_pull_rank(W, MOf(st), st.call)
      IN
-       /\ bad' = IF c # ""
-                 THEN bad \o (IF bad = "" THEN "" ELSE ",") \o c \o "@" \o ToString(l) \o "#"
-                          \o (IF "C07V" \in Props THEN C07VFlag(st) ELSE Flag(ks /\ ic))
-                 ELSE bad
+       /\ bad' = LET b1 == IF c # ""
+                          THEN bad \o (IF bad = "" THEN "" ELSE ",") \o c \o "@" \o ToString(l) \o "#"
+                                   \o (IF "C07V" \in Props THEN C07VFlag(st) ELSE Flag(ks /\ ic))
+                          ELSE bad
+                     x2 == X2Clause(st)
+                 IN IF x2 = "" THEN b1 ELSE b1 \o (IF b1 = "" THEN "" ELSE ",") \o x2 \o "@" \o ToString(l) \o "#0"
        /\ drift' = (drift \/ ~ic)
        /\ kf' = (kf \/ ks)
   /\ l' = l + 1
